@@ -233,6 +233,7 @@ def gen_function_vcs(lib, key):
         vcs = fv.run()
         info['status'] = 'ok'
         info['n_loops'] = fv.n_loops
+        info['reachable_returns'] = list(getattr(fv, 'reachable_returns', (None, None)))
     except engine.OutOfFragment as e:
         info['status'] = 'out-of-fragment'
         info['error'] = str(e)
